@@ -183,8 +183,10 @@ pub fn run(path: &str, jobs: usize, out: &mut Out) {
         handles.push(std::thread::spawn(move || {
             let mut results: Vec<Value> = Vec::new();
             let mut pos = lo;
+            let mut hangs = 0usize;
             let cases = read_behaviours(&path);
-            while pos < hi {
+            // three hanging cases decide the run (each costs the watchdog's 40 s): the rest of the slice is left
+            while pos < hi && hangs < 3 {
                 // the worker's lines are read through a channel so that a case that never returns (a hang is
                 // not a panic) is noticed: 40 s without a line = the case at `pos` hangs
                 use std::io::BufRead;
@@ -233,6 +235,7 @@ pub fn run(path: &str, jobs: usize, out: &mut Out) {
                 let _ = reader.join();
                 pos += got;
                 if hung {
+                    hangs += 1;
                     if pos < hi {
                         let mut c = cases[pos][0].clone();
                         c["hang"] = json!(true);
